@@ -146,7 +146,11 @@ def display (heap : Array Cell) : Nat → Val → Option String
       | some (.anyobj fs) =>
         (displayFields heap fuel (sortFields fs)).map fun ds => "{\n    " ++ ",\n    ".intercalate ds ++ "\n}"
       | none => none
-    | .fn _ _ | .closure _ | .builtin _ | .bound _ _ => none
+    -- function values print the same on both backends (no mangled names)
+    | .fn _ name => some (if (name.splitOn "$lambda_").length > 1 then "<closure>" else "<function>")
+    | .closure _ => some "<closure>"
+    | .builtin _ => some "<builtin-function>"
+    | .bound _ _ => none
 def displayList (heap : Array Cell) : Nat → List Val → Option (List String)
   | 0, _ => none
   | _ + 1, [] => some []
@@ -184,7 +188,9 @@ def valEq (heap : Array Cell) : Nat → Val → Val → Option Bool
       | some (.obj f1), some (.obj f2) => fieldsEq heap fuel (sortFields f1) (sortFields f2)
       | some (.anyobj f1), some (.anyobj f2) => fieldsEq heap fuel (sortFields f1) (sortFields f2)
       | _, _ => none
-    | .fn .., _ | .closure .., _ | .builtin .., _ | .bound .., _ => none
+    -- function values are never equal, not even to themselves (IsEqual of both backends)
+    | .fn .., _ | .closure .., _ | .builtin .., _ => some false
+    | .bound .., _ => none
     | _, _ => some false
 def listEq (heap : Array Cell) : Nat → List Val → List Val → Option Bool
   | 0, _, _ => none
@@ -203,7 +209,7 @@ end
 
 def displayM (v : Val) : M String := do
   let s ← get
-  match display s.heap 64 v with
+  match display s.heap 1000000 v with   -- the fuel bounds elements + nesting (a model limit)
   | some d => pure d
   | none => throwCtl (.unsupported "display of this value")
 
